@@ -33,7 +33,7 @@ fn canonical_rel(s: &Seen) -> String {
 
 fn gen_lane(ctx: &mut Ctx, idx: u64) {
     let mut r = ctx.rng();
-    let o = ROpts { substvars: idx % 3 == 0, ws_level: (idx % 3) as u8, ..ROpts::default() };
+    let o = ROpts { substvars: idx % 3 == 0, ws_level: (idx % 3) as u8, inner_newlines: idx % 2 == 0, ..ROpts::default() };
     let g = relgen::gen_field(&mut r, &o);
     let feat = main_feature(&g.features);
     let has_sv = !g.substvars().is_empty();
